@@ -266,6 +266,18 @@ class Session:
         self.check_inputs(F, where)
         p["compile_returned"] += 1
         self.res.nontrivial = True
+        if op.get("recompile", True):
+            # "reflects the most recent step": a second compiler -- a never-used engine object of the
+            # same kind -- looking at the same network now must produce the same function
+            try:
+                F2 = make_engine(self.kind).to_function(self.net, **self.compile_kwargs(op, self.T_sym))
+            except Exception as e:
+                raise Violation("C19/not-most-recent-step", f"{where}: returned a function, but a never-used engine of the same "
+                                f"kind refuses to compile the same network now ({type(e).__name__}: {str(e)[:120]})")
+            if dyn.eval_function(F, core.H(op.get("pt", 0), "r")) != dyn.eval_function(F2, core.H(op.get("pt", 0), "r")):
+                raise Violation("C19/not-most-recent-step", f"{where}: the returned function differs from the one a never-used "
+                                "engine of the same kind compiles from the same network at the same moment")
+            p["compile_returned_fresh_compiler_equal"] += 1
         if self.clean is not None:
             self.compare_with_twin(F, op, where)
         return "returned"
@@ -462,8 +474,8 @@ def generate(prop: str, run_seed: int, tier: str = "quick") -> dict:
     T = round(rng.uniform(8, 12) / 3600, 8)
 
     def compile_op():
-        return {"op": "compile", "compact": rng.choice([0, 1, 2]), "more_out": rng.random() < 0.4, "T": T,
-                "pt": rng.getrandbits(16), "give_params": rng.random() < 0.85}
+        return {"op": "compile", "compact": rng.choice([0, 1, 1, 2]), "more_out": rng.random() < 0.3, "T": T,
+                "pt": rng.getrandbits(16), "give_params": rng.random() < 0.85, "recompile": rng.random() < 0.6}
 
     def step_op(allow_fault=True):
         op = {"op": "step", "sym": rng.choice(["auto", "caller", "same"]), "opts": dyn.gen_opts(rng)}
@@ -527,6 +539,7 @@ TIERS = {
         "quick": {"runs": 5000, "selftest": 12, "chunk": 100, "wall_cap": 900, "run_timeout": 120},
         "thorough": {"runs": 120000, "selftest": 48, "chunk": 400, "wall_cap": 3300, "run_timeout": 120,
                      "expect_probes": ["interrupt", "add_after_step", "compile_returned", "compile_returned_clean_twin_equal",
+                                       "compile_returned_fresh_compiler_equal",
                                        "compile_raised_expected:uninitialised", "compile_raised_expected:unstepped",
                                        "compile_raised_expected:reinitialised-after-step", "interrupt_phase:initialisation",
                                        "interrupt_phase:dynamics"]},
